@@ -15,8 +15,9 @@ def ranks(tier):
 
 
 class ArrayOpSpec(FuncSpec):
-    props = ("C01", "C12", "C17")
+    props = ("C01", "C12", "C17", "C16")
     explicit = (ValueError, TypeError, NotImplementedError, IndexError)
+    prop_obligations = {"C16": ("builds-without-executing",)}
 
     def install(self, c):
         gb.install(c)
@@ -30,6 +31,11 @@ class ArrayOpSpec(FuncSpec):
 
     def declines(self, c, a, k, e):
         return False
+
+    def always(self, c, a, k, outcome):
+        # C16: composing an operation runs nothing — no path through the builder reaches an execution entry point
+        # (compute / Array.__int__ / __index__ / __bool__ / __float__ / __array__), whether it returns or raises
+        yield "builds-without-executing", not [e for e in c.ctx.effects if e[0] == "execute"]
 
     def replay_case(self, cfg, model):
         """-> (arrays: {label: (ndim, fixed)}, build_src, reference_src) or None"""
@@ -53,16 +59,21 @@ class ArrayOpSpec(FuncSpec):
 @register
 class Repeat(ArrayOpSpec):
     """repeat(x, repeats, axis): result[.., j, ..] == x[.., j // repeats, ..]"""
-    quick_props = ('C01', 'C17', 'C12')
+    quick_props = ('C01', 'C17', 'C12', 'C16')
 
     target = f"{MF}:repeat"
 
     def configs(self, tier):
-        return [dict(ndim=nd, axis=ax) for nd in ranks(tier) for ax in range(nd)]
+        return [dict(ndim=nd, axis=ax) for nd in ranks(tier) for ax in range(nd)] + [dict(ndim=1, axis=0, repeats_is_array=True)]
 
     def setup(self, c):
         nd, ax = c.cfg["ndim"], c.cfg["axis"]
         x = sym_array(c, "x", nd)
+        if c.cfg.get("repeats_is_array"):
+            # the Array API allows an array for `repeats`; cubed may decline it, but must not compute it while building
+            r = sym_array(c, "r", 0)
+            c.expect_origin = None
+            return (x, r), dict(axis=ax)
         r = c.int("repeats", lo=0)
         c.expect_origin = lambda j, g: ("array-x", tuple(gi // r if i == ax else gi for i, gi in enumerate(g)))
         return (x, r), dict(axis=ax)
@@ -70,12 +81,26 @@ class Repeat(ArrayOpSpec):
     def ensures(self, c, a, k, res):
         x, r = a
         ax = k["axis"]
+        if c.cfg.get("repeats_is_array"):
+            return  # the clause of this configuration is `builds-without-executing` (always)
         yield "shape", c.eq_tuple(res.shape, tuple(n * r if i == ax else n for i, n in enumerate(x.shape)))
         yield "declared-chunks-sum-to-shape", c.And(*[g.total(c.interp) == n for g, n in zip(res.chunks, res.shape)])
 
+    def declines(self, c, a, k, e):
+        return bool(c.cfg.get("repeats_is_array")) or super().declines(c, a, k, e)
+
     def canaries(self, c, a, k, res):
         x, r = a
+        if c.cfg.get("repeats_is_array"):
+            return
         yield "canary:shape-unchanged", c.eq_tuple(res.shape, x.shape)
+
+    def replay(self, cfg, model, ob):
+        if cfg.get("repeats_is_array"):
+            return ("import sys\nsys.path.insert(0, '/verif')\nfrom pyvc.replay_lib import run_lazy_case\n"
+                    "reproduced, detail = run_lazy_case(lambda xp, cubed, spec: xp.repeat(xp.ones((4,), chunks=2, spec=spec), "
+                    "xp.asarray(2, spec=spec)))\n")
+        return super().replay(cfg, model, ob)
 
     def replay_case(self, cfg, model):
         r, ax = model.get("repeats", 0), cfg["axis"]
